@@ -10,7 +10,7 @@
             r matches RegistryEntry::NotFound(cell) ==> cell.node_s() == node@,
             // C12: a miss means the node is recorded nowhere - a resident node is always found
             r is NotFound ==> (old(self).reg_ok() ==> forall|x: nat| !old(self).res(node@, x)),
-            r matches RegistryEntry::NotFound(cell) ==> (old(self).reg_ok() && final(cell).node_s() == node@ ==> final(self).reg_ok()),
+            r matches RegistryEntry::NotFound(cell) ==> (old(self).reg_ok() && final(cell).node_s() == node@ && final(cell).addr_s() != 0 ==> final(self).reg_ok()),
             // C12: unless the least recently used cell of the node's row was occupied, nothing stops being resident
             r is NotFound ==> (!old(self).full_for(node@) ==> forall|n: BNode, x: nat| old(self).res(n, x) ==> final(self).res(n, x)),
             // and the handed-out cell is resident once it carries an address
